@@ -384,6 +384,9 @@ Definition update_one (d : dstate) (u : N * (N * N)) : dstate :=
     set_blobs d (aput bid (set_times b m' a') (d_blobs d))
   end.
 
+(* core.PartitionID(core.RSPartition<<30) | partition.ID  (kept behind a name: tactics choke on N.lor of a big literal) *)
+Definition rs_partition_id (pid : N) : N := N.lor (c_RSPartition * two30) pid.
+
 Definition do_allocrs (d : dstate) (n : N) : option (dstate * list N) :=
   match first_part (fun p => (p_nextrs p + n) mod two64 <=? c_MaxRSChunkKey) (d_parts d) with
   | None => Some (d, [9; e_GenBlobID; 0; 0])
@@ -391,7 +394,7 @@ Definition do_allocrs (d : dstate) (n : N) : option (dstate * list N) :=
     if pid =? 0 then Some (d, [9; e_GenBlobID; 0; 0]) else
     let key := p_nextrs p in
     Some (set_parts d (aput pid (mkPart (p_nextblob p) ((key + n) mod two64)) (d_parts d)),
-          [9; e_NoError; N.lor (c_RSPartition * two30) pid; key])
+          [9; e_NoError; rs_partition_id pid; key])
   end.
 
 (* PutRSChunk: the loop over the layout with its working copies of the touched blobs *)
